@@ -656,3 +656,508 @@ Proof.
   split; [exact test_agree|]. split; [exact match_agree|]. split; [exact negate_agree|].
   split; [exact bad_test_fails|]. split; [exact bad_match_fails|exact bad_negate_fails].
 Qed.
+
+(* ------------------------------------------------------------------------- *)
+(** * The client on values that denote no request.
+
+    Whenever the client does send a body, it is a lexical variant of what the reference
+    writes for [raw_of_query q], and that raw request is conformant exactly when the
+    value denotes a request; so a value with an unknown test or match-type string is
+    sent as a document the RFC reader rejects, and the server refuses it. *)
+
+Lemma mapM_Forall2 {A B} (f : A -> res B) l ws :
+  mapM f l = Ok ws -> Forall2 (fun x w => f x = Ok w) l ws.
+Proof.
+  revert ws. induction l as [|x l IH]; simpl; intros ws H.
+  - inversion H; constructor.
+  - destruct (f x) as [w| |] eqn:E; simpl in H; try discriminate.
+    destruct (mapM f l) as [ws'| |]; simpl in H; try discriminate. inversion H; subst.
+    constructor; auto.
+Qed.
+
+Lemma param_var_enc p w :
+  encode_param_filter p = Ok w -> var (write_param (raw_of_param p)) (marshal_param_filter w).
+Proof.
+  destruct p as [name ind tm]. unfold encode_param_filter, raw_of_param, write_param, marshal_param_filter, el.
+  cbn [pa_name pa_ind pa_tm xp_name xp_cond].
+  destruct ind, tm as [t|]; cbn [andb is_some]; try discriminate; intros H; inversion H; subst;
+    cbn [wpa_name wpa_ind wpa_tm flag_kid opt_kid app]; apply V_elem; try apply Permutation_refl.
+  - apply var_kids_refl.
+  - change (kind_of (C "param-filter")) with KElems. constructor; [apply tm_var|constructor].
+  - apply var_kids_refl.
+Qed.
+
+Lemma params_var_enc ps ws :
+  Forall2 (fun x w => encode_param_filter x = Ok w) ps ws ->
+  Forall2 var (map write_param (map raw_of_param ps)) (map marshal_param_filter ws).
+Proof. induction 1; simpl; constructor; auto using param_var_enc. Qed.
+
+Lemma pf_var_enc f w :
+  encode_prop_filter f = Ok w -> var (write_pf (raw_of_pf f)) (marshal_prop_filter w).
+Proof.
+  destruct f as [name test ind tms ps]. unfold encode_prop_filter, raw_of_pf, write_pf, marshal_prop_filter, el.
+  cbn [pf_name pf_test pf_ind pf_tms pf_params xf_name xf_test xf_cond].
+  assert (PA : Permutation
+                 (real_attrs (plain_attr "name" name :: opt_attr "test" (opt_nonempty test)))
+                 (real_attrs (nsd NS_CARD :: at_always "name" name ++ at_omitempty "test" test))).
+  { unfold opt_nonempty, at_omitempty. destruct (str_empty test); apply Permutation_refl. }
+  destruct ind.
+  - destruct tms, ps; cbn [nonempty orb andb mapM bind map]; try discriminate.
+    intros H; inversion H; subst. cbn [wpf_name wpf_test wpf_ind wpf_tms wpf_params flag_kid map app].
+    apply V_elem; [exact PA|]. apply var_kids_refl.
+  - cbn [andb]. destruct (mapM encode_param_filter ps) as [ws| |] eqn:E; cbn [bind]; try discriminate.
+    intros H; inversion H; subst. cbn [wpf_name wpf_test wpf_ind wpf_tms wpf_params flag_kid app].
+    apply V_elem; [exact PA|]. change (kind_of (C "prop-filter")) with KElems.
+    apply var_kids_app.
+    + rewrite !map_map. apply var_kids_Forall2, Forall2_map2. intros; apply tm_var.
+    + apply var_kids_Forall2, params_var_enc, mapM_Forall2, E.
+Qed.
+
+Lemma pfs_var_enc fs ws :
+  Forall2 (fun x w => encode_prop_filter x = Ok w) fs ws ->
+  Forall2 var (map write_pf (map raw_of_pf fs)) (map marshal_prop_filter ws).
+Proof. induction 1; simpl; constructor; auto using pf_var_enc. Qed.
+
+Theorem client_query_variant_enc q w :
+  query_address_book q = Ok w -> var (write_query (raw_of_query q)) (marshal_query w).
+Proof.
+  unfold query_address_book. destruct (mapM encode_prop_filter (q_filters q)) as [ws| |] eqn:E; cbn [bind]; try discriminate.
+  intros H; inversion H; subst; clear H.
+  unfold write_query, raw_of_query, marshal_query, el.
+  cbn [xq_sel xq_test xq_filters xq_limit wq_prop wq_allprop wq_propname wq_filter wq_limit].
+  apply V_elem; [apply Permutation_refl|]. change (kind_of (C "addressbook-query")) with KElems.
+  change (opt_kid marshal_prop (Some (encode_address_prop_req (q_data q))) ++
+          flag_kid false (Elem (NS_DAV, "allprop") [nsd NS_DAV] []) ++
+          flag_kid false (Elem (NS_DAV, "propname") [nsd NS_DAV] []) ++
+          [marshal_filter (mkWF (q_test q) ws)] ++
+          opt_kid marshal_limit (if (0 <? q_limit q)%Z then Some (Z.to_N (q_limit q)) else None))%list
+    with ([marshal_prop (encode_address_prop_req (q_data q))] ++ [marshal_filter (mkWF (q_test q) ws)]
+            ++ opt_kid marshal_limit (if (0 <? q_limit q)%Z then Some (Z.to_N (q_limit q)) else None))%list.
+  apply var_kids_app; [apply var_kids_Forall2, sel_var|]. apply var_kids_app.
+  - constructor; [|constructor]. unfold marshal_filter, el. cbn [wf_test wf_props].
+    apply V_elem.
+    + unfold opt_nonempty, at_omitempty. destruct (str_empty (q_test q)); apply Permutation_refl.
+    + apply var_kids_Forall2, pfs_var_enc, mapM_Forall2, E.
+  - destruct (0 <? q_limit q)%Z; [|constructor]. cbn [opt_kid].
+    constructor; [|constructor]. unfold write_limit, marshal_limit, el_inh.
+    apply V_elem; [apply Permutation_refl|]. rewrite text_kid_dec. apply var_kids_refl.
+Qed.
+
+(** the raw request of a value the client accepts is conformant exactly when the
+    value denotes a request *)
+Lemma den_test_val_eq s : val_test (opt_nonempty s) = den_test s.
+Proof. unfold den_test, opt_nonempty. destruct (str_empty s); reflexivity. Qed.
+Lemma den_match_val_eq s : val_match (opt_nonempty s) = den_match s.
+Proof. unfold den_match, opt_nonempty. destruct (str_empty s); reflexivity. Qed.
+
+Lemma den_tm_val_eq t : val_tm (raw_of_tm t) = den_tm t.
+Proof.
+  unfold val_tm, raw_of_tm, den_tm. cbn [xt_negate xt_match xt_text]. rewrite den_match_val_eq.
+  destruct (tm_negate t); reflexivity.
+Qed.
+
+Lemma den_param_val_eq p w : encode_param_filter p = Ok w -> val_param (raw_of_param p) = den_param p.
+Proof.
+  destruct p as [name ind tm]. unfold encode_param_filter, val_param, raw_of_param, den_param.
+  cbn [pa_name pa_ind pa_tm xp_cond xp_name].
+  destruct ind, tm as [t|]; cbn [andb is_some]; try discriminate; intros _; try reflexivity.
+  rewrite den_tm_val_eq. reflexivity.
+Qed.
+
+Lemma omapM_map_ext {A B C} (f : B -> option C) (g : A -> B) (h : A -> option C) l :
+  (forall x, In x l -> f (g x) = h x) -> omapM f (map g l) = omapM h l.
+Proof.
+  induction l as [|x l IH]; simpl; intros H; [reflexivity|].
+  rewrite (H x (or_introl eq_refl)), IH by (intros; apply H; right; assumption). reflexivity.
+Qed.
+
+Lemma Forall2_In_l {A B} (R : A -> B -> Prop) l l' x : Forall2 R l l' -> In x l -> exists y, R x y.
+Proof. induction 1; simpl; intros H'; [contradiction|]. destruct H' as [->|H']; eauto. Qed.
+
+Lemma den_pf_val_eq f w : encode_prop_filter f = Ok w -> val_pf (raw_of_pf f) = den_pf f.
+Proof.
+  destruct f as [name test ind tms ps]. unfold encode_prop_filter, val_pf, raw_of_pf, den_pf.
+  cbn [pf_name pf_test pf_ind pf_tms pf_params xf_test xf_cond xf_name]. rewrite den_test_val_eq.
+  destruct (den_test test) as [t|]; cbn [obind]; [|reflexivity].
+  destruct ind.
+  - destruct tms, ps; cbn [nonempty orb andb]; try discriminate. reflexivity.
+  - cbn [andb]. destruct (mapM encode_param_filter ps) as [ws| |] eqn:E; cbn [bind]; try discriminate. intros _.
+    rewrite (omapM_map_ext val_tm raw_of_tm den_tm) by (intros; apply den_tm_val_eq).
+    destruct (omapM den_tm tms); cbn [obind]; [|reflexivity].
+    rewrite (omapM_map_ext val_param raw_of_param den_param); [reflexivity|].
+    intros x Hx. destruct (Forall2_In_l _ _ _ x (mapM_Forall2 _ _ _ E) Hx) as [y Hy].
+    apply (den_param_val_eq x y Hy).
+Qed.
+
+Lemma den_query_val_eq q w : query_address_book q = Ok w -> val_query (raw_of_query q) = den_query q.
+Proof.
+  unfold query_address_book. destruct (mapM encode_prop_filter (q_filters q)) as [ws| |] eqn:E; cbn [bind]; try discriminate.
+  intros _. unfold val_query, raw_of_query, den_query. cbn [xq_sel xq_test xq_filters xq_limit].
+  rewrite client_sel_ok. cbn [negb]. rewrite den_test_val_eq.
+  destruct (den_test (q_test q)) as [t|]; cbn [obind]; [|reflexivity].
+  rewrite (omapM_map_ext val_pf raw_of_pf den_pf).
+  2:{ intros x Hx. destruct (Forall2_In_l _ _ _ x (mapM_Forall2 _ _ _ E) Hx) as [y Hy]. apply (den_pf_val_eq x y Hy). }
+  destruct (omapM den_pf (q_filters q)); cbn [obind]; [|reflexivity].
+  unfold den_limit. destruct (0 <? q_limit q)%Z eqn:L; [|reflexivity].
+  unfold val_nresults. rewrite digits_dec_of_N.
+  assert (P : (0 <? Z.to_N (q_limit q))%N = true) by (apply N.ltb_lt; apply Z.ltb_lt in L; lia).
+  rewrite P. reflexivity.
+Qed.
+
+(** what the RFC reader makes of whatever the client sends for a query *)
+Theorem client_query_reads q d :
+  client_query_doc q = Ok d -> rfc_read d = match den_query q with Some r => Some (RQuery r) | None => None end.
+Proof.
+  unfold client_query_doc. destruct (query_address_book q) as [w| |] eqn:E; cbn [bind]; try discriminate.
+  intros H; inversion H; subst; clear H.
+  rewrite (rfc_read_var _ _ (client_query_variant_enc q w E)).
+  change (write_query (raw_of_query q)) with (rfc_write_raw (XQuery (raw_of_query q))).
+  rewrite rfc_read_write_raw by reflexivity. cbn [validate].
+  rewrite (den_query_val_eq q w E). destruct (den_query q); reflexivity.
+Qed.
+
+(** ** ... and the server refuses it *)
+
+Lemma omapM_none {A B} (f : A -> option B) l : omapM f l = None -> exists x, In x l /\ f x = None.
+Proof.
+  induction l as [|x l IH]; simpl; [discriminate|]. destruct (f x) eqn:E; simpl.
+  - destruct (omapM f l); simpl; [discriminate|]. intros _. destruct (IH eq_refl) as [y [Hy Fy]]. eauto.
+  - intros _. eauto.
+Qed.
+
+Lemma Forall2_In_l' {A B} (R : A -> B -> Prop) l l' x :
+  Forall2 R l l' -> In x l -> exists y, In y l' /\ R x y.
+Proof.
+  induction 1; simpl; intros H'; [contradiction|]. destruct H' as [->|H']; [eauto|].
+  destruct (IHForall2 H') as [z [Hz Rz]]. eauto.
+Qed.
+
+Lemma kids_bad_in badk kids n a k : In (Elem n a k) kids -> badk n a k = true -> kids_bad badk kids = true.
+Proof. intros Hin Hb. unfold kids_bad. apply existsb_exists. exists (Elem n a k). auto. Qed.
+
+Lemma den_match_none s : den_match s = None -> str_empty s = false /\ val_match (Some s) = None.
+Proof. unfold den_match. destruct (str_empty s); [discriminate|auto]. Qed.
+Lemma den_test_none s : den_test s = None -> str_empty s = false /\ val_test (Some s) = None.
+Proof. unfold den_test. destruct (str_empty s); [discriminate|auto]. Qed.
+
+Lemma marshal_tm_bad t :
+  den_tm t = None ->
+  match marshal_text_match (encode_text_match t) with Elem n a k => tm_bad n a k | _ => false end = true.
+Proof.
+  unfold den_tm. destruct (den_match (tm_match t)) eqn:E; [discriminate|]. intros _.
+  destruct (den_match_none _ E) as [Hne Hv].
+  unfold marshal_text_match, encode_text_match, el, tm_bad, attrs_bad, at_omitempty.
+  cbn [wtm_collation wtm_negate wtm_match wtm_text snd str_empty]. rewrite Hne.
+  replace (String.eqb "text-match" "text-match") with true by reflexivity. cbn [andb app].
+  cbn [existsb nsd fst snd]. replace (bad_tm_attr "xmlns" NS_CARD) with false by reflexivity. cbn [orb].
+  rewrite existsb_app. apply orb_true_iff; right. cbn [existsb fst snd]. unfold bad_tm_attr.
+  replace (String.eqb "match-type" "match-type") with true by reflexivity.
+  replace (String.eqb "match-type" "negate-condition") with false by reflexivity.
+  rewrite Hv. reflexivity.
+Qed.
+
+Lemma marshal_param_bad p w :
+  encode_param_filter p = Ok w -> den_param p = None ->
+  match marshal_param_filter w with Elem n a k => pa_bad n a k | _ => false end = true.
+Proof.
+  destruct p as [name ind tm]. unfold encode_param_filter, den_param. cbn [pa_name pa_ind pa_tm].
+  destruct ind, tm as [t|]; cbn [andb is_some]; try discriminate; intros H; inversion H; subst; clear H.
+  destruct (den_tm t) eqn:E; [discriminate|]. intros _.
+  unfold marshal_param_filter, el, pa_bad. cbn [wpa_name wpa_ind wpa_tm snd flag_kid opt_kid app].
+  replace (String.eqb "param-filter" "param-filter") with true by reflexivity. cbn [andb kids_bad existsb].
+  rewrite (marshal_tm_bad t E). reflexivity.
+Qed.
+
+Lemma test_attr_bad name test :
+  den_test test = None ->
+  attrs_bad bad_test_attr (nsd NS_CARD :: at_always "name" name ++ at_omitempty "test" test) = true.
+Proof.
+  intros E. destruct (den_test_none _ E) as [Hne Hv]. unfold attrs_bad, at_omitempty, at_always. rewrite Hne.
+  cbn [app existsb nsd fst snd]. unfold bad_test_attr.
+  replace (String.eqb "test" "test") with true by reflexivity. rewrite Hv. cbn. reflexivity.
+Qed.
+
+Lemma marshal_pf_bad f w :
+  encode_prop_filter f = Ok w -> den_pf f = None ->
+  match marshal_prop_filter w with Elem n a k => pf_bad n a k | _ => false end = true.
+Proof.
+  destruct f as [name test ind tms ps]. unfold encode_prop_filter, den_pf.
+  cbn [pf_name pf_test pf_ind pf_tms pf_params].
+  destruct ind.
+  - destruct tms, ps; cbn [nonempty orb andb mapM bind map]; try discriminate.
+    intros H; inversion H; subst; clear H.
+    destruct (den_test test) eqn:E; cbn [obind]; [discriminate|]. intros _.
+    unfold marshal_prop_filter, el, pf_bad. cbn [wpf_name wpf_test wpf_ind wpf_tms wpf_params snd].
+    replace (String.eqb "prop-filter" "prop-filter") with true by reflexivity. cbn [andb].
+    rewrite (test_attr_bad name test E). reflexivity.
+  - cbn [andb]. destruct (mapM encode_param_filter ps) as [ws| |] eqn:EP; cbn [bind]; try discriminate.
+    intros H; inversion H; subst; clear H.
+    unfold marshal_prop_filter, el, pf_bad. cbn [wpf_name wpf_test wpf_ind wpf_tms wpf_params snd flag_kid app].
+    replace (String.eqb "prop-filter" "prop-filter") with true by reflexivity. cbn [andb].
+    destruct (den_test test) eqn:E; cbn [obind]; [|intros _; rewrite (test_attr_bad name test E); reflexivity].
+    intros H. apply orb_true_iff; right. rewrite kids_bad_app. apply orb_true_iff.
+    destruct (omapM den_tm tms) eqn:ET; cbn [obind] in H.
+    + right. destruct (omapM den_param ps) eqn:EPa; cbn [obind] in H; [discriminate|].
+      destruct (omapM_none _ _ EPa) as [p [Hin Hp]].
+      destruct (Forall2_In_l' _ _ _ p (mapM_Forall2 _ _ _ EP) Hin) as [w [Hw Ew]].
+      pose proof (marshal_param_bad p w Ew Hp) as B.
+      destruct (marshal_param_filter w) as [n a k| |] eqn:EM; try discriminate.
+      apply (kids_bad_in _ _ n a k); [rewrite <- EM; apply in_map, Hw|]. rewrite B. apply orb_true_r.
+    + left. destruct (omapM_none _ _ ET) as [t [Hin Ht]].
+      pose proof (marshal_tm_bad t Ht) as B.
+      destruct (marshal_text_match (encode_text_match t)) as [n a k| |] eqn:EM; try discriminate.
+      apply (kids_bad_in _ _ n a k); [rewrite <- EM; apply in_map, in_map, Hin|]. rewrite B. reflexivity.
+Qed.
+
+Lemma marshal_query_bad q w :
+  query_address_book q = Ok w -> den_query q = None -> doc_bad_enum (marshal_query w) = true.
+Proof.
+  unfold query_address_book. destruct (mapM encode_prop_filter (q_filters q)) as [ws| |] eqn:E; cbn [bind]; try discriminate.
+  intros H; inversion H; subst; clear H. unfold den_query. intros H.
+  unfold marshal_query, el, doc_bad_enum. rewrite qname_eqb_refl. cbn [andb].
+  cbn [wq_prop wq_allprop wq_propname wq_filter wq_limit opt_kid flag_kid app].
+  cbn [kids_bad existsb]. apply orb_true_iff; right. apply orb_true_iff; left.
+  unfold marshal_filter, el, f_bad. cbn [wf_test wf_props snd].
+  replace (String.eqb "filter" "filter") with true by reflexivity. cbn [andb]. apply orb_true_iff.
+  destruct (den_test (q_test q)) eqn:ET; cbn [obind] in H.
+  - right. destruct (omapM den_pf (q_filters q)) eqn:EF; cbn [obind] in H; [discriminate|].
+    destruct (omapM_none _ _ EF) as [f [Hin Hf]].
+    destruct (Forall2_In_l' _ _ _ f (mapM_Forall2 _ _ _ E) Hin) as [w [Hw Ew]].
+    pose proof (marshal_pf_bad f w Ew Hf) as B.
+    destruct (marshal_prop_filter w) as [n a k| |] eqn:EM; try discriminate.
+    apply (kids_bad_in _ _ n a k); [rewrite <- EM; apply in_map, Hw|exact B].
+  - left. destruct (den_test_none _ ET) as [Hne Hv]. unfold attrs_bad, at_omitempty. rewrite Hne.
+    cbn [app existsb nsd fst snd]. unfold bad_test_attr.
+    replace (String.eqb "test" "test") with true by reflexivity. rewrite Hv. cbn. reflexivity.
+Qed.
+
+Lemma mapM_err {A B} (f : A -> res B) l c : mapM f l = Err c -> exists x, In x l /\ f x = Err c.
+Proof.
+  induction l as [|x l IH]; simpl; [discriminate|].
+  destruct (f x) as [w|c2|] eqn:E; cbn [bind]; try discriminate.
+  - destruct (mapM f l) as [ws|c3|]; cbn [bind]; try discriminate.
+    intros X; inversion X; subst. destruct (IH eq_refl) as [y [Hy Fy]]. eauto.
+  - intros X; inversion X; subst. eauto.
+Qed.
+
+Lemma mapM_panic {A B} (f : A -> res B) l : mapM f l = Panic -> exists x, In x l /\ f x = Panic.
+Proof.
+  induction l as [|x l IH]; simpl; [discriminate|].
+  destruct (f x) as [w|c2|] eqn:E; cbn [bind]; try discriminate.
+  - destruct (mapM f l) as [ws|c3|]; cbn [bind]; try discriminate.
+    intros _. destruct (IH eq_refl) as [y [Hy Fy]]. eauto.
+  - intros _. eauto.
+Qed.
+
+Lemma encode_param_cases p : (exists w, encode_param_filter p = Ok w) \/ encode_param_filter p = Err 0.
+Proof. unfold encode_param_filter. destruct (pa_ind p && _); eauto. Qed.
+
+Lemma encode_pf_cases f : (exists w, encode_prop_filter f = Ok w) \/ encode_prop_filter f = Err 0.
+Proof.
+  unfold encode_prop_filter. destruct (pf_ind f && _); [right; reflexivity|].
+  destruct (mapM encode_param_filter (pf_params f)) as [ps|c|] eqn:E; cbn [bind]; eauto.
+  - destruct (mapM_err _ _ _ E) as [p [_ Hp]]. destruct (encode_param_cases p) as [[w Hw]|Hw]; [congruence|right; congruence].
+  - destruct (mapM_panic _ _ E) as [p [_ Hp]]. destruct (encode_param_cases p) as [[w Hw]|Hw]; congruence.
+Qed.
+
+Lemma query_address_book_cases q : (exists w, query_address_book q = Ok w) \/ query_address_book q = Err 0.
+Proof.
+  unfold query_address_book.
+  destruct (mapM encode_prop_filter (q_filters q)) as [ps|c|] eqn:E; cbn [bind]; eauto.
+  - destruct (mapM_err _ _ _ E) as [p [_ Hp]]. destruct (encode_pf_cases p) as [[w Hw]|Hw]; [congruence|right; congruence].
+  - destruct (mapM_panic _ _ E) as [p [_ Hp]]. destruct (encode_pf_cases p) as [[w Hw]|Hw]; congruence.
+Qed.
+
+(** C09_enumerations, client-to-backend direction: a query that denotes no request (an
+    unknown test or match-type string, or a filter with is-not-defined next to other
+    conditions) either is not sent, or is sent as a document that the RFC reader rejects
+    and the server refuses with 400. *)
+Theorem client_inexpressible_refused up path q :
+  den_query q = None ->
+  client_query_doc q = Err 0 \/
+  exists d, client_query_doc q = Ok d /\ rfc_read d = None /\ handle_report up path d = Err 400.
+Proof.
+  intros H. unfold client_query_doc. destruct (query_address_book_cases q) as [[w E]|E]; rewrite E; cbn [bind].
+  - right. exists (marshal_query w). split; [reflexivity|]. split.
+    + assert (D : client_query_doc q = Ok (marshal_query w)) by (unfold client_query_doc; rewrite E; reflexivity).
+      rewrite (client_query_reads q _ D), H. reflexivity.
+    + apply server_refuses_invalid_enum, (marshal_query_bad q w E H).
+  - left. reflexivity.
+Qed.
+
+(* ------------------------------------------------------------------------- *)
+(** * The executable specifications of the correspondence check accept the model:
+      agreement of the implementation with the model entails the specification
+      (outside the known finding). *)
+
+Lemma list_eqb_refl {A} (e : A -> A -> bool) l : (forall x, In x l -> e x x = true) -> list_eqb e l l = true.
+Proof. induction l; simpl; intros H; auto. rewrite H, IHl; auto. Qed.
+
+Lemma list_eqb_eq {A} (e : A -> A -> bool) l1 : forall l2,
+  (forall x y, In x l1 -> e x y = true -> x = y) -> list_eqb e l1 l2 = true -> l1 = l2.
+Proof.
+  induction l1 as [|x l1 IH]; destruct l2 as [|y l2]; simpl; intros H E; try discriminate; auto.
+  apply andb_true_iff in E. destruct E as [E1 E2]. f_equal; [apply H; auto|apply IH; auto].
+Qed.
+
+Lemma bool_eqb_eq a b : bool_eqb a b = true -> a = b.
+Proof. destruct a, b; simpl; auto; discriminate. Qed.
+Lemma bool_eqb_refl a : bool_eqb a a = true.
+Proof. destruct a; reflexivity. Qed.
+
+Lemma attr_eqb_eq a b : attr_eqb a b = true -> a = b.
+Proof.
+  destruct a as [n v], b as [n' v']. unfold attr_eqb. simpl. intros H. apply andb_true_iff in H.
+  destruct H as [H1 H2]. apply qname_eqb_spec in H1. apply String.eqb_eq in H2. congruence.
+Qed.
+
+Lemma tree_eqb_eq a : forall b, tree_eqb a b = true -> a = b.
+Proof.
+  induction a as [n at1 k IH|s|s] using xtree_ind2; intros b; destruct b as [n' at2 k'|s'|s']; simpl; try discriminate.
+  - intros H. apply andb_true_iff in H. destruct H as [H Hk]. apply andb_true_iff in H. destruct H as [Hn Ha].
+    apply qname_eqb_spec in Hn. subst n'.
+    apply list_eqb_eq in Ha; [|intros; apply attr_eqb_eq; assumption]. subst at2. f_equal.
+    revert k' Hk. induction IH as [|x k Hx _ IHk]; intros k' Hk; destruct k' as [|y k']; try discriminate; auto.
+    apply andb_true_iff in Hk. destruct Hk as [H1 H2]. f_equal; [apply Hx, H1|apply IHk, H2].
+  - intros H. apply String.eqb_eq in H. congruence.
+  - intros H. apply String.eqb_eq in H. congruence.
+Qed.
+
+Lemma rtest_eqb_refl a : rtest_eqb a a = true. Proof. destruct a; reflexivity. Qed.
+Lemma rmatch_eqb_refl a : rmatch_eqb a a = true. Proof. destruct a; reflexivity. Qed.
+Lemma r_tm_eqb_refl a : r_tm_eqb a a = true.
+Proof. unfold r_tm_eqb. rewrite String.eqb_refl, bool_eqb_refl, rmatch_eqb_refl. reflexivity. Qed.
+Lemma r_param_eqb_refl a : r_param_eqb a a = true.
+Proof. unfold r_param_eqb. rewrite String.eqb_refl. destruct (rp_cond a); simpl; auto using r_tm_eqb_refl. Qed.
+Lemma r_pf_eqb_refl a : r_pf_eqb a a = true.
+Proof.
+  unfold r_pf_eqb. rewrite String.eqb_refl, rtest_eqb_refl. destruct (rf_cond a); simpl; auto.
+  rewrite !list_eqb_refl; auto using r_tm_eqb_refl, r_param_eqb_refl.
+Qed.
+Lemma r_item_eqb_refl a : r_item_eqb a a = true.
+Proof.
+  destruct a as [d|n]; simpl; [|apply qname_eqb_refl]. destruct d; simpl; auto.
+  apply list_eqb_refl. intros; apply String.eqb_refl.
+Qed.
+Lemma r_sel_eqb_refl a : r_sel_eqb a a = true.
+Proof. destruct a; simpl; auto. apply list_eqb_refl; auto using r_item_eqb_refl. Qed.
+Lemma request_eqb_refl a : request_eqb a a = true.
+Proof.
+  destruct a as [q|m]; simpl.
+  - unfold r_query_eqb. rewrite r_sel_eqb_refl, rtest_eqb_refl, list_eqb_refl by auto using r_pf_eqb_refl.
+    destruct (rq_limit q); simpl; auto. apply N.eqb_refl.
+  - unfold r_multiget_eqb. rewrite r_sel_eqb_refl, list_eqb_refl; auto. intros; apply String.eqb_refl.
+Qed.
+
+(** client stage *)
+Theorem client_agree_implies_spec us i o :
+  client_agrees us i o = true -> client_spec_ok us i o = true.
+Proof.
+  unfold client_agrees, client_spec_ok. destruct i as [q|p mg]; cbn [client_model client_denotation].
+  - destruct (client_query_doc q) as [t|c|] eqn:E; destruct o as [|t']; try discriminate; intros H.
+    + apply tree_eqb_eq in H. subst t'. rewrite (client_query_reads q t E).
+      destruct (den_query q); cbn [obind]; [apply request_eqb_refl|reflexivity].
+    + destruct (den_query q) as [r|] eqn:D; cbn [obind]; [|reflexivity].
+      destruct (client_query_conformant q r D) as [d [Ed _]]. congruence.
+  - destruct o as [|t']; try discriminate. intros H. apply tree_eqb_eq in H. subst t'.
+    destruct (den_multiget us mg) as [m|] eqn:D; cbn [obind]; [|reflexivity].
+    rewrite (client_multiget_conformant us p mg m D). apply request_eqb_refl.
+Qed.
+
+Lemma TextMatch_eqb_eq a b : TextMatch_eqb a b = true -> a = b.
+Proof.
+  destruct a, b. unfold TextMatch_eqb. simpl. intros H. apply andb_true_iff in H. destruct H as [H H3].
+  apply andb_true_iff in H. destruct H as [H1 H2]. apply String.eqb_eq in H1, H3. apply bool_eqb_eq in H2. congruence.
+Qed.
+Lemma ParamFilter_eqb_eq a b : ParamFilter_eqb a b = true -> a = b.
+Proof.
+  destruct a as [n i t], b as [n' i' t']. unfold ParamFilter_eqb. simpl. intros H. apply andb_true_iff in H.
+  destruct H as [H H3]. apply andb_true_iff in H. destruct H as [H1 H2]. apply String.eqb_eq in H1. apply bool_eqb_eq in H2.
+  destruct t, t'; simpl in H3; try discriminate; [apply TextMatch_eqb_eq in H3|]; congruence.
+Qed.
+Lemma PropFilter_eqb_eq a b : PropFilter_eqb a b = true -> a = b.
+Proof.
+  destruct a, b. unfold PropFilter_eqb. simpl. intros H.
+  repeat (apply andb_true_iff in H; let X := fresh "X" in destruct H as [H X]).
+  apply String.eqb_eq in H, X2. apply bool_eqb_eq in X1.
+  apply list_eqb_eq in X0; [|intros; apply TextMatch_eqb_eq; assumption].
+  apply list_eqb_eq in X; [|intros; apply ParamFilter_eqb_eq; assumption]. congruence.
+Qed.
+Lemma DataRequest_eqb_eq a b : DataRequest_eqb a b = true -> a = b.
+Proof.
+  destruct a, b. unfold DataRequest_eqb. simpl. intros H. apply andb_true_iff in H. destruct H as [H1 H2].
+  apply list_eqb_eq in H1; [|intros x y _ Hxy; apply String.eqb_eq, Hxy]. apply bool_eqb_eq in H2. congruence.
+Qed.
+Lemma Query_eqb_eq a b : Query_eqb a b = true -> a = b.
+Proof.
+  destruct a as [d1 f1 t1 l1], b as [d2 f2 t2 l2]. unfold Query_eqb. cbn [q_data q_filters q_test q_limit]. intros H.
+  do 3 (apply andb_true_iff in H; let X := fresh "X" in destruct H as [H X]).
+  apply DataRequest_eqb_eq in H. apply list_eqb_eq in X1; [|intros; apply PropFilter_eqb_eq; assumption].
+  apply String.eqb_eq in X0. apply Z.eqb_eq in X. congruence.
+Qed.
+
+Lemma TextMatch_eqb_refl a : TextMatch_eqb a a = true.
+Proof. unfold TextMatch_eqb. rewrite !String.eqb_refl, bool_eqb_refl. reflexivity. Qed.
+Lemma ParamFilter_eqb_refl a : ParamFilter_eqb a a = true.
+Proof. unfold ParamFilter_eqb. rewrite String.eqb_refl, bool_eqb_refl. destruct (pa_tm a); simpl; auto using TextMatch_eqb_refl. Qed.
+Lemma PropFilter_eqb_refl a : PropFilter_eqb a a = true.
+Proof.
+  unfold PropFilter_eqb. rewrite !String.eqb_refl, bool_eqb_refl, !list_eqb_refl; auto using TextMatch_eqb_refl, ParamFilter_eqb_refl.
+Qed.
+Lemma DataRequest_eqb_refl a : DataRequest_eqb a a = true.
+Proof. unfold DataRequest_eqb. rewrite bool_eqb_refl, list_eqb_refl; auto. intros; apply String.eqb_refl. Qed.
+Lemma Query_eqb_refl a : Query_eqb a a = true.
+Proof.
+  unfold Query_eqb. rewrite DataRequest_eqb_refl, String.eqb_refl, Z.eqb_refl, list_eqb_refl; auto using PropFilter_eqb_refl.
+Qed.
+
+Lemma obs_matches_canon o oc :
+  obs_matches o (Ok oc) = true ->
+  obs_matches (mkSO (so_panic o) (so_status o) (canon_obs_queries (so_queries o)) (so_gets o))
+              (Ok (canon_outcome oc)) = true.
+Proof.
+  destruct o as [pn st qs gs]. destruct oc as [p q| |l]; cbn [obs_matches canon_outcome so_panic so_status so_queries so_gets].
+  - intros H. repeat (apply andb_true_iff in H; let X := fresh "X" in destruct H as [H X]).
+    rewrite H, X1, X. cbn [andb].
+    destruct qs as [|[p' q'] [|? ?]]; simpl in X0; try discriminate; [|rewrite andb_false_r in X0; discriminate].
+    rewrite andb_true_r in X0. apply andb_true_iff in X0. destruct X0 as [Hp Hq].
+    apply Query_eqb_eq in Hq. subst q'. simpl. rewrite Hp, Query_eqb_refl. reflexivity.
+  - unfold no_calls. cbn [so_queries so_gets]. destruct qs; simpl; auto.
+  - destruct qs; simpl; [auto|]. rewrite andb_false_r. simpl. auto.
+Qed.
+
+(** server stage, conformant documents *)
+Theorem server_agree_implies_spec_conformant up path x d o r :
+  validate x = Some r -> rfc_read d = Some r -> collides d = false ->
+  server_agrees up path d o = true -> server_spec_ok up path x d o = true.
+Proof.
+  intros V R Hc A. unfold server_spec_ok. rewrite V, R. cbn [opt_eqb]. rewrite request_eqb_refl. cbn [andb].
+  destruct (limit_fits r) eqn:L; [|reflexivity].
+  destruct (backend_call_of up path r) as [c|] eqn:B; [|reflexivity].
+  destruct (server_denotes_read up path d r c R Hc L B) as [oc [Ho Co]].
+  unfold server_agrees in A. rewrite Ho in A. subst c. apply obs_matches_canon, A.
+Qed.
+
+(** server stage, documents with an invalid enumeration value *)
+Theorem server_agree_implies_spec_bad_enum up path x d o :
+  validate x = None -> doc_bad_enum d = true ->
+  server_agrees up path d o = true -> server_spec_ok up path x d o = true.
+Proof.
+  intros V Bd A. unfold server_spec_ok. rewrite V.
+  unfold server_agrees in A. rewrite (server_refuses_invalid_enum up path d Bd) in A.
+  cbn [obs_matches] in A. apply andb_true_iff in A. destruct A as [A Hn]. apply andb_true_iff in A. destruct A as [Hp Hs].
+  apply N.eqb_eq in Hs. rewrite Hs, Hn. apply negb_true_iff in Hp. rewrite Hp. cbn [negb andb].
+  destruct (enum_bad x); reflexivity.
+Qed.
+
+(** hence, outside the known finding's selector, agreement entails the specification *)
+Theorem server_kf_or_spec up path x d o r :
+  validate x = Some r -> rfc_read d = Some r ->
+  server_agrees up path d o = true ->
+  kf_nsdecl up path x d o = false -> server_spec_ok up path x d o = true.
+Proof.
+  intros V R A K. unfold kf_nsdecl in K. rewrite A in K. cbn [andb] in K.
+  destruct (collides d) eqn:Hc; cbn [andb] in K.
+  - apply negb_false_iff in K. exact K.
+  - apply (server_agree_implies_spec_conformant up path x d o r); auto.
+Qed.
